@@ -154,3 +154,15 @@ def extra(ctx, cov):
 
 # source pins: the C the Lean model mirrors (see tools/pins.py)
 PINS = [('mpz/init.c', None), ('mpz/init2.c', None), ('mpz/realloc.c', None), ('mpz/realloc2.c', None), ('mpz/set.c', None), ('mpz/clear.c', None)]
+
+def explain_broken(ctx, proof_broken):
+    """when tmp_balanced fails, name the skeletons the decision procedure rejects (evaluated by Lean on the regenerated table)"""
+    if not any("C04_tmp" in r for r in proof_broken): return ""
+    import tempfile, subprocess
+    src = "import Mpir.Model.TmpSkel\n#eval Mpir.TmpSkel.unbalanced\n"
+    p = os.path.join(vlib.CACHE, "unbal-%d.lean" % os.getpid()); open(p, "w").write(src)
+    try:
+        rc, out = vlib.run(["lake", "env", "lean", p], cwd=vlib.LEAN, timeout=600)
+    finally:
+        os.unlink(p)
+    return "TMP skeletons rejected by Mpir.TmpSkel.balanced (file:function) = " + out.strip()[:2000]
